@@ -18,7 +18,8 @@ Inductive case :=
 | CObj (cfg : Z) (o : obj)
 | CPresent (cfg : Z) (pairs : list (string * string)) (objs : list string)
 | CProbe (cfg : Z) (id : string) (observed : string)
-| CSame (cfg : Z) (diff : list string).
+| CSame (cfg : Z) (diff : list string)
+| CCopy (evalState : Z) (panicked : bool) (diff : list string).   (* Copy() of a vandalised runtime vs its original *)
 
 Definition find_entry (owner name : string) : option entry :=
   find (fun e => String.eqb (e_owner e) owner && String.eqb (e_name e) name) all_props.
@@ -61,10 +62,7 @@ Definition predicted_missing : list string :=
 Definition probe_exceptions : list (string * string * Z) :=
   [ (* class 2: RegExp.prototype is not a RegExp; test/exec on it die of a Go nil dereference
        (seen inside try/catch as a thrown non-Error value, outside it the panic escapes Run) *)
-    ("kind:RegExp.prototype", "[object RegExp],threw undefined,threw undefined,/undefined/", 2);
-    (* class 3: a bound function uses the ordinary [[HasInstance]] with its own prototype
-       instead of delegating to the target (15.3.4.5.3) *)
-    ("kind:bound", "3,true,false,1,function", 3) ].
+    ("kind:RegExp.prototype", "[object RegExp],threw undefined,threw undefined,/undefined/", 2) ].
 
 Definition verdict (c : case) : Z * Z :=
   match c with
@@ -91,4 +89,8 @@ Definition verdict (c : case) : Z * Z :=
       | None => declined
       end
   | CSame _ diff => judge (list_eqb String.eqb) diff [] [] 0
+  | CCopy st p diff =>
+      (* regression cases of the repaired C14-copy-panics-eval-rebound: a panic is a violation *)
+      judge (fun a b => Bool.eqb (fst a) (fst b) && list_eqb String.eqb (snd a) (snd b))
+            (p, diff) (copy_panics_model st, []) (copy_panics_spec st, []) 0
   end.
